@@ -2,6 +2,7 @@ import KoordVerif.Proofs.C15ExtMin
 import KoordVerif.Proofs.C15ExtNs
 import KoordVerif.Proofs.C15ExtUp
 import KoordVerif.Proofs.C15ExtInf
+import KoordVerif.Proofs.C15ExtRace
 /-
 C15 — property theorems (DESIGN.md §4 C15, Appendix A.7).
 
@@ -1267,5 +1268,184 @@ example : ¬ EchoOK 1 init gnHist := by
 example : (stepEcho 1 (runEcho 1 init (gnHist.take 2)) (.upd { gnA with force := true } false false)).2 = true ∧
     (runEcho 1 init gnHist).info = [{ gnA with force := true }, gnP] ∧ (run 1 init gnHist).info = [gnA, gnP] := by decide
 example : WF 1 (runEcho 1 init gnHist) := reachable_echo_WF_nd 1 gnHist gnHist_echoOK_nd
+
+/-! ### 18. the delete's critical section against a concurrent request (round 4; Model/C15Race.lean, Proofs/C15ExtRace.lean)
+    ValidDeleteQuota holds the topology lock from its 'exists and has no children' check across the pod List to the
+    removal (Ties: tie_delete_one_section).  Small-step model: delete thread (lock · check · list · remove · unlock) against
+    one concurrent admission request / informer event on the same topology, every schedule. -/
+
+/-- invariant of the atomic shape: the state is well-formed, and what the check and the pod list established still
+    holds of the CURRENT state when the removal runs. -/
+structure RaceInv (d n : Nat) (lp : Bool) (c : RC) : Prop where
+  wf  : WF d c.s
+  chk : c.pc = 2 ∨ c.pc = 3 → delCheck c.s n = true
+  lst : c.pc = 3 → lp = false
+
+theorem dstep_atomic_inv {d n : Nat} {lp : Bool} {c : RC} (h : RaceInv d n lp c) :
+    RaceInv d n lp (dstep .atomic n lp c) := by
+  obtain ⟨s, pc, dres, ores⟩ := c
+  match pc, h with
+  | 0, h => simp only [dstep]; exact ⟨h.wf, by simp, by simp⟩
+  | 1, h =>
+    simp only [dstep]
+    split
+    · next hc => exact ⟨h.wf, fun _ => hc, by simp⟩
+    · exact ⟨h.wf, by simp, by simp⟩
+  | 2, h =>
+    simp only [dstep]
+    cases lp with
+    | true => exact ⟨h.wf, by simp, by simp⟩
+    | false => exact ⟨h.wf, fun _ => h.chk (Or.inl rfl), fun _ => rfl⟩
+  | 3, h =>
+    simp only [dstep]
+    have hc := h.chk (Or.inr rfl)
+    have hl := h.lst rfl
+    subst hl
+    have hv := validDelete_sections s n false
+    simp only [hc, Bool.not_false, Bool.and_self, if_true] at hv
+    have hacc : (step d s (.del n false)).2 = true := by simp [step, hv]
+    have := accept_preserves_WF d s (.del n false) h.wf trivial hacc
+    simp only [step, hv] at this
+    exact ⟨this, by simp, by simp⟩
+  | k+4, h => simp only [dstep]; exact h
+
+theorem ostep_atomic_inv {d n : Nat} {lp : Bool} {c : RC} {r : RawOp} (hr : NotRootAddRaw r) (h : RaceInv d n lp c) :
+    RaceInv d n lp (ostep d .atomic (.req r) c) := by
+  unfold ostep
+  split
+  · exact h
+  · next hfree =>
+    have hpc : ¬ (c.pc = 2 ∨ c.pc = 3) := by
+      intro hp
+      rcases hp with hp | hp <;> simp [lockHeld, hp] at hfree
+    refine ⟨?_, fun hp => absurd hp hpc, fun hp => absurd (Or.inr hp) hpc⟩
+    simp only [otherRun]
+    cases hres : (stepRaw d c.s r).2 with
+    | true => exact raw_accept_preserves_WF d c.s r h.wf hr hres
+    | false => rw [raw_reject_is_noop d c.s r hres]; exact h.wf
+
+/-- ONE SECTION FROM THE CHECK TO THE REMOVAL ⇒ under EVERY interleaving of the delete with a concurrent admission
+    request (create, create through the mutating step, update, another delete) every intermediate and the final recorded
+    topology is well-formed. -/
+theorem race_atomic_WF (d n : Nat) (lp : Bool) (r : RawOp) (hr : NotRootAddRaw r) (sched : List Bool) :
+    ∀ c, RaceInv d n lp c → RaceInv d n lp (raceExec d .atomic n lp (.req r) c sched) := by
+  induction sched with
+  | nil => intro c h; exact h
+  | cons w ws ih =>
+    intro c h
+    simp only [raceExec, List.foldl_cons]
+    apply ih
+    unfold raceStep
+    cases w with
+    | true => exact ostep_atomic_inv hr h
+    | false => exact dstep_atomic_inv h
+
+theorem race_atomic_WF_init (d n : Nat) (lp : Bool) (r : RawOp) (hr : NotRootAddRaw r) (sched : List Bool) (s : Topo)
+    (hW : WF d s) : WF d (raceExec d .atomic n lp (.req r) { s := s } sched).s :=
+  (race_atomic_WF d n lp r hr sched { s := s } ⟨hW, by simp, by simp⟩).wf
+
+/-- every interleaving of the atomic shape is one of the two sequential orders. -/
+theorem race_atomic_linearizable (d n : Nat) (lp : Bool) (o : Other) (s0 : Topo) (sched : List Bool) :
+    let c := raceExec d .atomic n lp o { s := s0 } sched
+    c.pc = 4 → c.ores.isSome = true →
+      (c.s = (validDelete (otherRun d o s0).1 n lp).1 ∧ c.dres = some (validDelete (otherRun d o s0).1 n lp).2 ∧
+        c.ores = some (otherRun d o s0).2) ∨
+      (c.s = (otherRun d o (validDelete s0 n lp).1).1 ∧ c.dres = some (validDelete s0 n lp).2 ∧
+        c.ores = some (otherRun d o (validDelete s0 n lp).1).2) := by
+  have key : ∀ (sched : List Bool) (c : RC), SerInv d n lp o s0 c → SerInv d n lp o s0 (raceExec d .atomic n lp o c sched) := by
+    intro sched
+    induction sched with
+    | nil => intro c h; exact h
+    | cons w ws ih =>
+      intro c h
+      simp only [raceExec, List.foldl_cons]
+      exact ih _ (raceStep_serInv w h)
+  intro c hpc hsome
+  have hinv : SerInv d n lp o s0 c :=
+    key sched { s := s0 } (Or.inl ⟨rfl, Or.inl ⟨by simp, rfl, rfl, by simp, by simp⟩⟩)
+  rcases hinv with ⟨ho, _⟩ | ⟨ho, hm⟩ | ⟨_, hd, ho, hs⟩
+  · simp [ho] at hsome
+  · rcases hm with ⟨hle, _⟩ | ⟨_, hs, hd⟩
+    · omega
+    · exact Or.inl ⟨hs, hd, ho⟩
+  · exact Or.inr ⟨hs, hd, ho⟩
+
+/-- decided after an admitted delete, the create of a child under the deleted quota is rejected: its parent is gone
+    (what the request that had to wait for the lock meets). -/
+theorem child_after_delete_rejected (d : Nat) (s : Topo) (n : Nat) (lp : Bool) (q : QI) (sw : Bool)
+    (h : (validDelete s n lp).2 = true) (hp : q.parent = n) (hq : q.name ≠ 0) :
+    (validAdd d (validDelete s n lp).1 q sw).2 = false := by
+  obtain ⟨o, hfo, hk, hlp, hst⟩ := validDelete_true h
+  have hn0 : n ≠ 0 := by
+    intro h0; subst h0; simp [validDelete] at h
+  have hfind : find (validDelete s n lp).1.info n = none := by
+    rw [hst]
+    unfold find delState
+    simp [List.find?_eq_none]
+  have ht : topoCheck d (validDelete s n lp).1 none q false = false := by
+    unfold topoCheck parentInfoOK
+    simp only [hp, hfind, hn0, hq, if_false]
+    simp [isParentChangeOK]
+  unfold validAdd
+  simp only [ht]
+  split
+  · rfl
+  · split
+    · rfl
+    · split
+      · rfl
+      · simp
+
+/-- THE SPLIT SHAPE (check in a read-locked helper, pod list outside any lock, removal under a re-taken write lock that
+    only re-checks that the quota still exists): parent 3 without children; the delete passes its check, the create of
+    child 4 under 3 runs while the pod list is in flight and is admitted (its parent exists), the removal then deletes
+    the parent — BOTH requests are admitted and the recorded child's parent does not exist. -/
+def rxChild : Raw :=
+  { name := 4, parentCode := 3, isParentCode := 0, tree := 0, forceCode := 2, rootCode := 2, swShape := 0, nsShape := 0,
+    nsList := [], mnNil := false, mxNil := false, mn := [some 2], mx := [some 8] }
+def rxS : Topo := (step 1 init (.add exA false)).1
+def rxSplit : RC := raceExec 1 .split 3 false (.req (.add rxChild)) { s := rxS } [false, true, false, false]
+
+theorem race_split_counterexample :
+    rxSplit.dres = some true ∧ rxSplit.ores = some true ∧ rxSplit.s.info = [decodeQI rxChild] ∧
+    (decodeQI rxChild).parent = 3 := by decide
+
+theorem race_split_not_WF : WF 1 rxS ∧ ¬ WF 1 rxSplit.s := by
+  refine ⟨?_, ?_⟩
+  · exact accept_preserves_WF 1 init (.add exA false) (wf_init 1) (by show exA.name ≠ 0; decide) (by decide)
+  · intro hW
+    obtain ⟨_, _, hinfo, hpar⟩ := race_split_counterexample
+    have := hW.forest.parentOK (decodeQI rxChild) (by rw [hinfo]; simp)
+    rw [hinfo] at this
+    rcases this with h0 | ⟨p, hp, hpn, _⟩
+    · rw [hpar] at h0; exact absurd h0 (by decide)
+    · simp at hp; subst hp; rw [hpar] at hpn; exact absurd hpn (by decide)
+
+/-- the same attempt under the code's shape: the create has to wait, is decided after the removal and is rejected. -/
+theorem race_atomic_same_attempt :
+    let c := raceExec 1 .atomic 3 false (.req (.add rxChild)) { s := rxS } harnessSched
+    c.dres = some true ∧ c.ores = some false ∧ c.s.info = [] := by decide
+
+
+/-! ### 19. the unchanged-fields shortcut sees zero-valued entries (round 4; Ties: tie_unchanged_fields_copy) -/
+
+/-- the shortcut applies only when the spec maps are IDENTICAL — key sets included. -/
+theorem sameFields_spec {o q : QI} (h : sameFields o q = true) : o.mn = q.mn ∧ o.mx = q.mx := by
+  simp only [sameFields, Bool.and_eq_true, beq_iff_eq] at h
+  exact ⟨h.1.1.1.1.1.1.2, h.1.1.1.1.1.2⟩
+
+/-- so an update that only adds (or drops) an entry with amount 0 is a change: it is checked like any other. -/
+theorem zero_entry_edit_is_a_change {o q : QI} {k : Nat} (ho : o.mx.get k = none) (hq : q.mx.get k = some 0) :
+    sameFields o q = false := by
+  cases h : sameFields o q with
+  | false => rfl
+  | true => rw [(sameFields_spec h).2] at ho; rw [ho] at hq; cases hq
+
+/-- witness (two dimensions): child B of A gains the max key of dimension 1 with amount 0 — rejected, because the max keys
+    of a child and its parent must agree; a shortcut blind to zero-valued entries would admit it unchecked. -/
+theorem zero_entry_edit_checked :
+    sameFields exB { exB with mx := [some 8, some 0] } = false ∧
+    (step 2 exS (.upd { exB with mx := [some 8, some 0] } false false)).2 = false ∧
+    (step 2 exS (.upd exB false false)).2 = true := by decide
 
 end KoordVerif.C15
